@@ -96,7 +96,7 @@ def jsonable(x):
     return repr(x)
 
 
-def close(a, b, rtol=1e-7, atol=1e-9):
+def close(a, b, rtol=1e-7, atol=1e-13):
     """Structural comparison of a predicted value (json form) with an observed value (json form)."""
     if isinstance(a, dict) and 'q' in a and 'f' in a:
         a = a['f']
